@@ -41,4 +41,6 @@ func TestReplay_Push(t *testing.T) {
 	pReplay("TestProp_C17_Sign", runC17Sign)
 	pReplay("TestProp_C17_SignSequence", runC17Seq)
 	pReplay("TestProp_C17_Select", runC17Select)
+	pReplay("TestProp_C03_LeaseBudget", runC03Budget)
+	pReplay("TestProp_C03_LiveDispatcher", runC03Live)
 }
